@@ -385,10 +385,12 @@ Variable memo : bool.
 Record mst := {
   m_pairs : list (name * name * bool);            (* comparedSet *)
   m_ffs : list (ptype * N * name * bool);         (* comparedFieldsAndFragmentSet *)
-  m_oof : bool }.                                 (* the model ran out of fuel somewhere *)
+  m_oof : bool;                                   (* the model ran out of fuel somewhere *)
+  m_fc : nat }.                                   (* findConflict calls so far (C19) *)
 
-Definition mst0 : mst := {| m_pairs := []; m_ffs := []; m_oof := false |}.
-Definition set_oof (st : mst) : mst := {| m_pairs := m_pairs st; m_ffs := m_ffs st; m_oof := true |}.
+Definition mst0 : mst := {| m_pairs := []; m_ffs := []; m_oof := false; m_fc := 0 |}.
+Definition set_oof (st : mst) : mst := {| m_pairs := m_pairs st; m_ffs := m_ffs st; m_oof := true; m_fc := m_fc st |}.
+Definition inc_fc (st : mst) : mst := {| m_pairs := m_pairs st; m_ffs := m_ffs st; m_oof := m_oof st; m_fc := Datatypes.S (m_fc st) |}.
 
 Fixpoint pair_find (a b : name) (l : list (name * name * bool)) : option bool :=
   match l with
@@ -402,7 +404,7 @@ Definition pair_has (st : mst) (a b : name) (fl : bool) : bool :=
   end.
 (* newest entry first: an Add overwrites *)
 Definition pair_add (st : mst) (a b : name) (fl : bool) : mst :=
-  {| m_pairs := (a, b, fl) :: (b, a, fl) :: m_pairs st; m_ffs := m_ffs st; m_oof := m_oof st |}.
+  {| m_pairs := (a, b, fl) :: (b, a, fl) :: m_pairs st; m_ffs := m_ffs st; m_oof := m_oof st; m_fc := m_fc st |}.
 
 Fixpoint ff_find (p : ptype) (k : N) (g : name) (l : list (ptype * N * name * bool)) : option bool :=
   match l with
@@ -416,7 +418,7 @@ Definition ff_has (st : mst) (p : ptype) (k : N) (g : name) (fl : bool) : bool :
   | Some stored => if fl then true else negb stored
   end.
 Definition ff_add (st : mst) (p : ptype) (k : N) (g : name) (fl : bool) : mst :=
-  {| m_pairs := m_pairs st; m_ffs := (p, k, g, fl) :: m_ffs st; m_oof := m_oof st |}.
+  {| m_pairs := m_pairs st; m_ffs := (p, k, g, fl) :: m_ffs st; m_oof := m_oof st; m_fc := m_fc st |}.
 
 Definition fset := (ptype * list selection)%type.   (* a fieldsAndFragmentNames value *)
 Definition same_set (a b : fset) : bool :=
@@ -434,6 +436,7 @@ Fixpoint fc (fuel : nat) (fl : bool) (a b : fentry) (st : mst) {struct fuel} : l
   match fuel with
   | O => ([], set_oof st)
   | Datatypes.S f =>
+    let st := inc_fc st in
     let ex := fl || excl a b in
     if negb (base_ok ex a b) then ([fe_id a], st)
     else if has_sub a && has_sub b then
